@@ -21,7 +21,7 @@ COMP = ['x', 'y', 'z', 'vx', 'vy', 'vz']
 
 def run_janus(u):
     rep = Report(); order, N, nsteps = u['order'], u['N'], u['steps']
-    label = "JANUS order=%d N=%d steps=%d " % (order, N, nsteps)
+    label = "JANUS order=%d N=%d steps=%d%s " % (order, N, nsteps, ' after a user-requested recalculation' if u.get('recalc') else '')
     dom = UF(sign_normalise=True); dom.nan_ok = set()
     ctx = P.StrictCtx(); I = new_interp(dom, ctx); I.concrete_env = True
     L = build.layout()
@@ -37,6 +37,12 @@ def run_janus(u):
             v = z3.BitVec('pint%d_%s' % (i, c), 64); ints[(i, c)] = v
             I.mem.store(Ptr(pint.obj, i * isz + 8 * k), I64, v)
     sim.set('ri_janus.p_int', pint); sim.set('ri_janus.N_allocated', N); sim.set('ri_janus.recalculate_integer_coordinates_this_timestep', 0)
+    if u.get('recalc'):
+        # the user edited the particles and requested a re-derivation of the grid state: the first step converts the (symbolic)
+        # doubles to integers once; from then on the run must be reversible down to that grid state
+        sim.set('ri_janus.recalculate_integer_coordinates_this_timestep', 1)
+        for i in range(N):
+            for c in COMP: sim.particle(i).set(c, dom.fresh('x%d_%s' % (i, c)))
     sp, sv, dt, G = dom.fresh('scale_pos'), dom.fresh('scale_vel'), dom.fresh('dt'), dom.fresh('G')
     sim.set('ri_janus.scale_pos', sp); sim.set('ri_janus.scale_vel', sv); sim.set('G', G)
     M = []
@@ -44,6 +50,10 @@ def run_janus(u):
         m = dom.fresh('m%d' % i); M.append(m); sim.particle(i).set('m', m)
     try:
         sim.set('dt', dt)
+        if u.get('recalc'):
+            I.call('@reb_simulation_step', [sim.ptr])          # consumes the request; the grid state after this step is the reference
+            for i in range(N):
+                for k, c in enumerate(COMP): ints[(i, c)] = z3.simplify(I.mem.load(Ptr(pint.obj, i * isz + 8 * k), I64))
         for _ in range(nsteps): I.call('@reb_simulation_step', [sim.ptr])
         mid = {(i, c): I.mem.load(Ptr(pint.obj, i * isz + 8 * k), I64) for i in range(N) for k, c in enumerate(COMP)}
         sim.set('dt', dom.fneg(dt))
@@ -127,6 +137,7 @@ def main():
             for steps in ((1,) if tier == 'quick' else (1, 2)):
                 if order == 10 and (N == 3 or steps == 2): continue
                 us.append(dict(order=order, N=N, steps=steps))
+    us.append(dict(order=2, N=2, steps=1, recalc=True)); us.append(dict(order=4, N=2, steps=1, recalc=True))
     rep = run_units(us, worker)
     code = finish(PID, tier, rep, t0,
         bounds=dict(orders=[u['order'] for u in us if 'order' in u], N='2' if tier == 'quick' else '2..3', steps_each_way='1' if tier == 'quick' else '1..2'),
